@@ -73,6 +73,10 @@ pub enum Op {
     Len,
     /// `map == map` (reads only: iterates one side, looks every entry up in the other)
     EqSelf,
+    /// relation between the shared collection and its never-modified twin (same hasher, the
+    /// pre-populated contents): 0-4 `==` in the owned/ref combinations, 5 is_subset, 6 is_superset,
+    /// 7 is_disjoint (sets; maps fold 5-7 onto 0-2); even kinds through guards, odd through refs
+    Rel(u8),
     /// whole iteration as one operation
     IterAll(IterKind),
     /// step-wise iteration: open, advance by up to n items, close
@@ -203,6 +207,7 @@ impl Op {
             Op::Reserve(n) => json!(["reserve", n]),
             Op::Len => json!(["len"]),
             Op::EqSelf => json!(["eq_self"]),
+            Op::Rel(k) => json!(["rel", k]),
             Op::IterAll(k) => json!(["iter_all", ik_s(*k)]),
             Op::IterOpen(k) => json!(["iter_open", ik_s(*k)]),
             Op::IterNext(n) => json!(["iter_next", n]),
@@ -248,6 +253,7 @@ impl Op {
             "reserve" => Op::Reserve(u(1)?),
             "len" => Op::Len,
             "eq_self" => Op::EqSelf,
+            "rel" => Op::Rel(u(1)? as u8),
             "iter_all" => Op::IterAll(ik_p(a.get(1)?.as_str()?)?),
             "iter_open" => Op::IterOpen(ik_p(a.get(1)?.as_str()?)?),
             "iter_next" => Op::IterNext(u(1)?),
